@@ -4,13 +4,24 @@ use super::types::{BlockChunk, BlockSizeSpec, ESpec, ESpecError, ZLibVariant};
 pub struct Parser<'a> {
     input: &'a str,
     pos: usize,
+    /// Number of specs currently being parsed inside one another
+    depth: usize,
 }
+
+/// Deepest nesting of specs the parser follows. Real specs nest two or three
+/// levels (`b:{…=e:{…,z:{6,mpq}}}`); the limit keeps the recursive descent from
+/// exhausting the stack on input such as `b:b:b:b:…`.
+const MAX_NESTING_DEPTH: usize = 32;
 
 impl<'a> Parser<'a> {
     /// Create a new parser for the given input
     #[must_use]
     pub const fn new(input: &'a str) -> Self {
-        Self { input, pos: 0 }
+        Self {
+            input,
+            pos: 0,
+            depth: 0,
+        }
     }
 
     /// Parse the input string into an `ESpec`
@@ -93,6 +104,16 @@ impl<'a> Parser<'a> {
 
     /// Parse an `ESpec` from the current position
     fn parse_espec(&mut self) -> Result<ESpec, ESpecError> {
+        if self.depth >= MAX_NESTING_DEPTH {
+            return Err(ESpecError::NestingTooDeep(MAX_NESTING_DEPTH));
+        }
+        self.depth += 1;
+        let result = self.parse_espec_inner();
+        self.depth -= 1;
+        result
+    }
+
+    fn parse_espec_inner(&mut self) -> Result<ESpec, ESpecError> {
         match self.peek() {
             Some('n') => {
                 self.consume('n')?;
@@ -729,6 +750,19 @@ mod tests {
         ));
         // the largest size that does fit still parses
         assert!(ESpec::parse("b:18014398509481983K=z").is_ok());
+    }
+
+    #[test]
+    fn test_deep_nesting_is_an_error() {
+        // unbounded recursion used to exhaust the stack
+        let deep = format!("{}n", "b:".repeat(100_000));
+        assert!(matches!(
+            ESpec::parse(&deep),
+            Err(ESpecError::NestingTooDeep(_))
+        ));
+        // a realistic nesting depth is unaffected
+        let ok = format!("{}n", "b:".repeat(8));
+        assert!(ESpec::parse(&ok).is_ok());
     }
 
     #[test]
